@@ -777,6 +777,7 @@ pub fn arc_programs(tier: &str, with_forget: bool) -> (Vec<Program>, String) {
         level = "ARC: 1 child x <=3 ops + main <=2; 2 children <=5 ops (raw ops); 3 children x 1 op; cell-in-Drop variant".to_string();
     }
     v.extend(fam::arc_reclone_family());
+    v.extend(fam::arc_getmut_acq_family());
     v.extend(fam::race_arc_family());
     let level = level + "; ARC-reclone: count 2 -> 1 -> 2 -> 0 (remote drops, relaxed flag, the owner clones again, every release order, third thread); RACE-arc: a non-final drop does not acquire";
     (v, level)
